@@ -577,7 +577,7 @@ proof {  assert((1u64 << 4) == 0x10 && (1u64 << 12) == 0x1000 && (1u64 << 20) ==
         
         if value < (1u64 << 4) {
             self.write_type_and_value(FSM_PROTOCOL_TYPE_INT_4BIT, value, 4);
-        } else if value < (1u64 << 12) {
+        } else if value <= (1u64 << 12) {
             self.write_type_and_value(FSM_PROTOCOL_TYPE_INT_12BIT, value, 12);
         } else if value < (1u64 << 20) {
             self.write_type_and_value(FSM_PROTOCOL_TYPE_INT_20BIT, value, 20);
